@@ -52,3 +52,92 @@ class Report:
 
 def short(cls):
     return cls.replace('Vector::BLF::', '')
+
+
+PIPE_RULES = set('K1 K2 K2s K2u K3 K4 K5 K6 K7 K8 K9 K10 K11 T1 T2 Q1 Q2 Q3 P1 P2 P3 P4 P5 O1 O2 O3 O4 C1 E1 E2 E4 H1 H2 H3 F3 F3p F4 F5 F6 '
+                 'S1 S2 S3 S4 B3 B4 B7 DN Z1 A1'.split())
+
+PIPELINE_CLASSES = ('Vector::BLF::File', 'Vector::BLF::UncompressedFile', 'Vector::BLF::CompressedFile', 'Vector::BLF::LogContainer',
+                    'Vector::BLF::ObjectHeaderBase', 'Vector::BLF::AbstractFile')
+MODELLED_HELPERS = {'logContainerContaining', 'createObject', 'internalHeaderSize', 'calculateHeaderSize', 'calculateObjectSize',
+                    'is_open', 'good', 'eof', 'defaultLogContainerSize', 'hasExtData'}
+
+
+def opaque_constructs(F):
+    """constructs inside the functions the pipeline rules are anchored in that the path/tree analyses do not look into: a rule that
+    fails while one of these is present may simply not see the statement it is looking for (it could sit inside the construct), so
+    the verdict is 'undecided' (exit 2), never a violation.  The unchanged tree has none."""
+    from facts import walk, strip_all_casts
+    out = []
+    for name, fns in sorted(F.functions.items()):
+        for fn in fns:
+            cls = fn.get('class') or ''
+            if not (cls in PIPELINE_CLASSES or cls.startswith('Vector::BLF::ObjectQueue<')):
+                continue
+            # local lambdas of this function
+            lambdas = set()
+            for n in walk(fn['body']):
+                if n.get('k') == 'Decl':
+                    for v in n['vars']:
+                        x = v.get('init')
+                        while isinstance(x, dict) and x.get('k') in ('Cast', 'Construct') and (x.get('sub') or x.get('args')):
+                            x = x.get('sub') or x['args'][0]
+                        if isinstance(x, dict) and x.get('k') == 'Lambda':
+                            lambdas.add(v['id'])
+            stmt_calls = set()
+
+            def mark(s_):
+                if isinstance(s_, dict):
+                    if s_.get('k') == 'Compound':
+                        for c in s_['body']:
+                            if isinstance(c, dict) and c.get('k') == 'Call':
+                                stmt_calls.add(id(c))
+                            mark(c)
+                    else:
+                        from facts import children
+                        for c in children(s_):
+                            if s_.get('k') in ('If', 'While', 'For', 'Do', 'Case', 'Default', 'Try', 'Switch') or 'body' in s_:
+                                if isinstance(c, dict) and c.get('k') == 'Call' and c is not s_.get('cond'):
+                                    stmt_calls.add(id(c))
+                            mark(c)
+            mark(fn['body'])
+            cond_calls = set()
+            for n in walk(fn['body']):
+                if n.get('k') == 'If' and n.get('cond') is not None:
+                    c = n['cond']
+                    while isinstance(c, dict) and (c.get('k') == 'Cast' or (c.get('k') == 'Un' and c.get('op') == '!')):
+                        c = c.get('sub')
+                    if isinstance(c, dict) and c.get('k') == 'Call':
+                        cond_calls.add(id(c))
+            for n in walk(fn['body']):
+                if n.get('k') != 'Call':
+                    continue
+                where = '%s (%s:%s)' % (short(fn['name']), F.rel(fn['file']), n.get('l'))
+                if n.get('ck') == 'operator' and n.get('op') == '()' and n.get('args'):
+                    o = n['args'][0]
+                    while isinstance(o, dict) and o.get('k') in ('Cast', 'Construct') and (o.get('sub') or o.get('args')):
+                        o = o.get('sub') or o['args'][0]
+                    if isinstance(o, dict) and o.get('k') == 'Lambda':
+                        out.append('immediately invoked lambda in ' + where)
+                    elif isinstance(o, dict) and o.get('k') == 'Ref' and o.get('id') in lambdas and id(n) not in stmt_calls:
+                        out.append('value of a local lambda used in ' + where)
+                    continue
+                if not n.get('calleeInRoot') or n.get('fn') in MODELLED_HELPERS:
+                    continue
+                cands = [c for c in F.functions.get(n.get('callee'), []) if c['sig'] == n.get('csig')]
+                if len(cands) != 1:
+                    continue
+                c = cands[0]
+                private_same = n.get('ck') == 'member' and n.get('clsq') == cls and c.get('access') == 2
+                local_fn = n.get('ck') == 'function' and c.get('kind') == 'function'
+                if not (private_same or local_fn):
+                    continue
+                if c.get('ret') == 'void' and id(n) in stmt_calls:
+                    continue   # inlined by the path enumeration
+                if c.get('ret') == 'bool' and id(n) in cond_calls:
+                    continue   # inlined as a condition
+                if private_same and n.get('fn') in ('uncompressedFile2ReadWriteQueue', 'readWriteQueue2UncompressedFile',
+                                                   'compressedFile2UncompressedFile', 'uncompressedFile2CompressedFile'):
+                    continue
+                out.append('call of helper %s whose result is used in %s' % (short(c['name']), where))
+    return out
